@@ -173,7 +173,7 @@ func checkC07(c *Ctx) *report.Result {
 	r.Extra["pairs_with_shared_location"] = shared
 	r.Instances["E-frame"] = pairs
 	r.Rule("E-alias", "within cartridge RAM a write changes only the written cell and its documented mirrors: MBC2's 512 half-bytes repeat every 0x200 (rule R-mbc2 of C09 re-stated), banked RAM cells are distinct per bank (R-bank)")
-	adopt(r, c.sibling("C09"), map[string]string{"R-mbc2": "E-alias", "R-bank": "E-alias"}, "a wrong mirror stride or bank index makes a write change the value read at another, undocumented address")
+	adopt(r, c.sibling("C09"), map[string]string{"R-mbc2": "E-alias", "R-bank": "E-alias", "R-gate": "E-alias"}, "a wrong mirror stride or bank index makes a write change the value read at another, undocumented address")
 	return r
 }
 
